@@ -56,6 +56,62 @@ func init() {
 		st.assume(v.c.sindexFacts(v, s, t))
 		return []Value{r}
 	})
+	reg("strings.IndexByte", true, func(v *FnV, st *State, call *ast.CallExpr, recv *Value, args []Value) []Value {
+		s, c := args[0].S, args[1].S
+		v.c.glob("sindexbyte", "(declare-fun sindexbyte (Str Int) Int)")
+		r := sx("sindexbyte", s, c)
+		st.assume(sAnd(sLe("(- 1)", r), sLt(r, sx("slen", s)), sImp(sGe(r, "0"), sEq(sx("sat", s, r), c))))
+		st.assume(fmt.Sprintf("(forall ((k!i Int)) (! (=> (and (<= 0 k!i) (< k!i (slen %s)) (or (< %s 0) (< k!i %s))) (not (= (select (sbase %s) (+ (soff %s) k!i)) %s))) :pattern ((select (sbase %s) (+ (soff %s) k!i)))))", s, r, r, s, s, c, s, s))
+		if c == "10" {
+			v.c.nlFns()
+			st.assume(fmt.Sprintf("(= (nl (sbase %s) (soff %s) (+ (soff %s) (ite (< %s 0) (slen %s) %s))) 0)", s, s, s, r, s, r))
+		}
+		return []Value{{T: tInt, S: r}}
+	})
+	reg("strings.LastIndexByte", true, func(v *FnV, st *State, call *ast.CallExpr, recv *Value, args []Value) []Value {
+		s, c := args[0].S, args[1].S
+		v.c.glob("slastindexbyte", "(declare-fun slastindexbyte (Str Int) Int)")
+		r := sx("slastindexbyte", s, c)
+		st.assume(sAnd(sLe("(- 1)", r), sLt(r, sx("slen", s)), sImp(sGe(r, "0"), sEq(sx("sat", s, r), c))))
+		st.assume(fmt.Sprintf("(forall ((k!i Int)) (! (=> (and (< %s k!i) (<= 0 k!i) (< k!i (slen %s))) (not (= (select (sbase %s) (+ (soff %s) k!i)) %s))) :pattern ((select (sbase %s) (+ (soff %s) k!i)))))", r, s, s, s, c, s, s))
+		if c == "10" {
+			v.c.nlFns()
+			st.assume(fmt.Sprintf("(= (nl (sbase %s) (+ (soff %s) %s 1) (+ (soff %s) (slen %s))) 0)", s, s, r, s, s))
+		}
+		return []Value{{T: tInt, S: r}}
+	})
+	reg("strings.HasSuffix", true, func(v *FnV, st *State, call *ast.CallExpr, recv *Value, args []Value) []Value {
+		s, t := args[0].S, args[1].S
+		if lit, ok := v.litContent(t); ok && len(lit) <= 8 {
+			ps := []string{sGe(sx("slen", s), fmt.Sprint(len(lit)))}
+			for i := 0; i < len(lit); i++ {
+				ps = append(ps, sEq(sx("sat", s, sx("+", sx("-", sx("slen", s), fmt.Sprint(len(lit))), fmt.Sprint(i))), fmt.Sprint(int(lit[i]))))
+			}
+			return []Value{{T: tBool, S: sAnd(ps...)}}
+		}
+		return []Value{{T: tBool, S: sAnd(sGe(sx("slen", s), sx("slen", t)), sx("str_eq", fmt.Sprintf("(mkstr (sbase %s) (+ (soff %s) (- (slen %s) (slen %s))) (slen %s))", s, s, s, t, t), t))}}
+	})
+	reg("strings.HasPrefix", true, func(v *FnV, st *State, call *ast.CallExpr, recv *Value, args []Value) []Value {
+		s, t := args[0].S, args[1].S
+		if lit, ok := v.litContent(t); ok && len(lit) <= 8 {
+			ps := []string{sGe(sx("slen", s), fmt.Sprint(len(lit)))}
+			for i := 0; i < len(lit); i++ {
+				ps = append(ps, sEq(sx("sat", s, fmt.Sprint(i)), fmt.Sprint(int(lit[i]))))
+			}
+			return []Value{{T: tBool, S: sAnd(ps...)}}
+		}
+		return []Value{{T: tBool, S: sAnd(sGe(sx("slen", s), sx("slen", t)), sx("str_eq", fmt.Sprintf("(mkstr (sbase %s) (soff %s) (slen %s))", s, s, t), t))}}
+	})
+	reg("strings.Count", true, func(v *FnV, st *State, call *ast.CallExpr, recv *Value, args []Value) []Value {
+		s, t := args[0].S, args[1].S
+		if lit, ok := v.litContent(t); ok && lit == "\n" {
+			v.c.nlFns()
+			return []Value{{T: tInt, S: fmt.Sprintf("(nl (sbase %s) (soff %s) (+ (soff %s) (slen %s)))", s, s, s, s)}}
+		}
+		r := st.freshVal("count", tInt)
+		st.assume(sAnd(sLe("0", r.S), sLe(r.S, sx("+", sx("slen", s), "1"))))
+		return []Value{r}
+	})
 	reg("strings.Contains", true, func(v *FnV, st *State, call *ast.CallExpr, recv *Value, args []Value) []Value {
 		return []Value{st.freshVal("contains", tBool)}
 	})
@@ -116,6 +172,9 @@ func (c *Ctx) sindexFacts(v *FnV, s, t string) string {
 	}
 	return sAnd(facts...)
 }
+
+// sOr1 is max(n,1) so that "-1 <= r < max(n,1)" admits r = -1 for the empty string.
+func sOr1(n string) string { return sIte(sLt(n, "1"), "1", n) }
 
 func sOr2Max(n, m, r string) string {
 	// upper bound used for the r == -1 case: r + m <= max(n, m) is always true then; keep simple
@@ -220,5 +279,11 @@ func (c *Ctx) nlFns() {
 	c.glob("nl",
 		"(declare-fun nl ((Array Int Int) Int Int) Int)",
 		"(assert (forall ((b (Array Int Int)) (a Int) (c Int)) (! (>= (nl b a c) 0) :pattern ((nl b a c)))))",
-		"(assert (forall ((b (Array Int Int)) (a Int)) (! (= (nl b a a) 0) :pattern ((nl b a a)))))")
+		"(assert (forall ((b (Array Int Int)) (a Int)) (! (= (nl b a a) 0) :pattern ((nl b a a)))))",
+		// NLAX (trusted axioms about counting newlines; listed in the evidence)
+		"(assert (forall ((b (Array Int Int)) (a Int) (c Int)) (! (<= (nl b a c) (ite (>= c a) (- c a) 0)) :pattern ((nl b a c)))))",
+		"(assert (forall ((b (Array Int Int)) (a Int) (c Int)) (! (=> (= c (+ a 1)) (= (nl b a c) (ite (= (select b a) 10) 1 0))) :pattern ((nl b a c)))))",
+		"(assert (forall ((b (Array Int Int)) (a Int) (m Int) (c Int)) (! (=> (and (<= a m) (<= m c)) (= (nl b a c) (+ (nl b a m) (nl b m c)))) :pattern ((nl b a m) (nl b m c)) :pattern ((nl b a c) (nl b a m)) :pattern ((nl b a c) (nl b m c)))))",
+		"(assert (forall ((b (Array Int Int)) (a Int) (c Int) (k Int)) (! (=> (and (= (nl b a c) 0) (<= a k) (< k c)) (not (= (select b k) 10))) :pattern ((nl b a c) (select b k)))))")
+	c.trusted["NLAX: axioms of nl(b,a,c) = number of '\\n' bytes in b[a:c) (bounds, unit, additivity, zero-count)"] = true
 }
